@@ -836,7 +836,7 @@ func c12CheckScenario(c *Ctx, sc c12Scenario, o w5Opts, p *w5Pair, msgs []*c12Ms
 			continue
 		}
 		if m.Opts.ImportantDelivery && !o.ImportantA {
-			if !errors.Is(m.sendErr, gen.ErrUnsupported) {
+			if !errors.Is(m.sendErr, gen.ErrUnsupported) && !(o.MaxAtoB > 0 && errors.Is(m.sendErr, gen.ErrTooLarge)) {
 				r.Violation("C12-important-unsupported", fmt.Sprintf("important %s to a peer without the feature returned %s", m.Kind, errText(m.sendErr)), where())
 			}
 			if len(got) != 0 {
@@ -1165,6 +1165,54 @@ func c12Fields(m *c12Msg, typ byte) string {
 	return strings.Join(parts, ",")
 }
 
+type c12Wire struct {
+	plainLen int
+	z        bool
+	typ      int
+}
+
+// c12Type: the message-type byte the writer method will use
+func c12Type(m *c12Msg, o w5Opts) int {
+	_, cached := o.AtomCache[m.Name]
+	pick := func(inline, cache int) int {
+		if cached {
+			return cache
+		}
+		return inline
+	}
+	switch m.Kind {
+	case "SendPID":
+		return 101
+	case "SendProcessID":
+		return pick(102, 103)
+	case "SendAlias":
+		return 104
+	case "SendEvent":
+		return pick(105, 106)
+	case "SendExit":
+		return 107
+	case "CallPID":
+		return 121
+	case "CallProcessID":
+		return pick(122, 123)
+	case "CallAlias":
+		return 124
+	case "SendResponse":
+		return 129
+	case "SendResponseError":
+		return 130
+	case "TerminatePID":
+		return 181
+	case "TerminateProcessID":
+		return pick(182, 183)
+	case "TerminateAlias":
+		return 184
+	case "TerminateEvent":
+		return pick(185, 186)
+	}
+	return 0
+}
+
 func c12CheckWire(c *Ctx, sc c12Scenario, o w5Opts, p *w5Pair, msgs []*c12Msg) {
 	r := c.R
 	// all frames that went A -> B (whole frames: a frame is written under the flusher lock)
@@ -1225,6 +1273,7 @@ func c12CheckWire(c *Ctx, sc c12Scenario, o w5Opts, p *w5Pair, msgs []*c12Msg) {
 	var idx []int
 	var ms []*c12Msg
 	seen := map[string]int{}
+	wireSeen := map[string]c12Wire{}
 	for i, out := range outs {
 		w := strings.Fields(out)
 		if len(w) != 4 || w[0] != "ok" {
@@ -1291,17 +1340,9 @@ func c12CheckWire(c *Ctx, sc c12Scenario, o w5Opts, p *w5Pair, msgs []*c12Msg) {
 		lines2 = append(lines2, fmt.Sprintf("enc %d %d %s %s %s", typ, imp, nm, pl, fl))
 		idx = append(idx, i)
 		ms = append(ms, m)
-		// envelope decision (Model/Envelope: compressed iff enabled and plain length > threshold)
+		// envelope decision: compared with Model/Envelope below
 		cp := m.Opts.Compression
-		compressible := true
-		switch m.Kind {
-		case "SendExit", "TerminatePID", "TerminateProcessID", "TerminateAlias", "TerminateEvent":
-			compressible = false
-		}
-		wantZ := compressible && cp.Enable && len(frames[i].plain) > cp.Threshold
-		if wantZ != (frames[i].z != "") {
-			r.Violation("C12-envelope", fmt.Sprintf("%s: plain frame %d bytes, compression enable=%v threshold=%d, on the wire compressed=%v", m.Kind, len(frames[i].plain), cp.Enable, cp.Threshold, frames[i].z != ""), sc)
-		}
+		wireSeen[key] = c12Wire{plainLen: len(frames[i].plain), z: frames[i].z != "", typ: int(typ)}
 		if frames[i].z != "" {
 			wt := string(cp.Type)
 			if wt == "" {
@@ -1326,6 +1367,54 @@ func c12CheckWire(c *Ctx, sc c12Scenario, o w5Opts, p *w5Pair, msgs []*c12Msg) {
 		}
 		if m.sendErr == nil && n != 1 {
 			r.Violation("C12-wire", fmt.Sprintf("%s returned nil but %d frames were written", m.Kind, n), sc)
+		}
+	}
+	// Model/Envelope: refused / plain / z for every message, from the plain frame length
+	var elines []string
+	var ems []*c12Msg
+	for _, m := range msgs {
+		if m.Kind == "LinkPID" || m.Kind == "MonitorPID" || (m.sendErr != nil && !errors.Is(m.sendErr, gen.ErrTooLarge)) {
+			continue
+		}
+		w, ok := wireSeen[m.key()]
+		if !ok {
+			w.plainLen = c12PlainLen(m, o)
+			w.typ = c12Type(m, o)
+			if w.plainLen < 0 {
+				continue
+			}
+		}
+		en := 0
+		if m.Opts.Compression.Enable {
+			en = 1
+		}
+		elines = append(elines, fmt.Sprintf("send %d %d %d %d %d", w.typ, o.MaxAtoB, en, m.Opts.Compression.Threshold, w.plainLen))
+		ems = append(ems, m)
+	}
+	eouts, err := Model("envelope", elines)
+	if err != nil {
+		r.Disagree("envelope-driver", err.Error(), sc)
+		return
+	}
+	for j, out := range eouts {
+		m := ems[j]
+		w, onWire := wireSeen[m.key()]
+		var obs string
+		switch {
+		case onWire && w.z:
+			obs = "z"
+		case onWire:
+			obs = "plain"
+		case errors.Is(m.sendErr, gen.ErrTooLarge):
+			obs = "refused"
+		default:
+			obs = "nothing"
+		}
+		r.Count("E:envelope:" + out)
+		ok := out == obs || (out == "z" && obs == "refused") // the compressed size is not predicted
+		if !ok {
+			r.Disagree("envelope-send", fmt.Sprintf("%s: Model/Envelope says %q for `%s`, observed %s (send returned %s)", m.Kind, out, elines[j], obs, errText(m.sendErr)),
+				map[string]interface{}{"scenario": sc, "message": sc.Msgs[m.Idx]})
 		}
 	}
 	outs2, err := ModelParallel("frame", lines2, 4)
